@@ -1,7 +1,8 @@
 #!/bin/bash
-# confirm_seed2.sh <id>: confirm a second-round seed produced in /tmp/seed2/<id>/SEED_OUT and store it as /verif/seeded/<id>b
+# confirm_seed2.sh <id> [root] [suffix]: confirm a later-round seed produced in <root>/<id>/SEED_OUT (default /tmp/seed2)
+# and store it as /verif/seeded/<id><suffix> (default suffix b)
 set -u
-id=$1; wt=/tmp/seed2/$id; out=/verif/seeded/${id}b
+id=$1; wt=${2:-/tmp/seed2}/$id; out=/verif/seeded/${id}${3:-b}
 export GOFLAGS=-mod=mod GOPROXY=off; unset GOTOOLCHAIN GOSUMDB
 [ -f $wt/SEED_OUT/patch.diff ] || { echo "no SEED_OUT/patch.diff"; exit 2; }
 mkdir -p $out; cp $wt/SEED_OUT/patch.diff $out/; cp $wt/SEED_OUT/*_test.go $out/ 2>/dev/null; cp $wt/SEED_OUT/notes.md $out/ 2>/dev/null
@@ -10,7 +11,7 @@ tn=$(grep -o 'func TestSeed[A-Za-z0-9_]*' $demo | head -1 | sed 's/func //')
 pk=$(grep -m1 '^package ' $demo | awk '{print $2}')
 cd $wt; git checkout -q -- . ; git clean -fdq -e SEED_OUT
 # package dir: from notes or by matching the package clause among touched dirs
-pkg=$(grep -o 'package directory[^`]*`[^`]*`' $out/notes.md | head -1 | sed 's/.*`\([^`]*\)`/\1/' | sed 's|/$||')
+pkg=$(grep -io 'package directory[^`]*`[^`]*`' $out/notes.md | head -1 | sed 's/.*`\([^`]*\)`/\1/' | sed 's|/$||')
 if [ -z "$pkg" ] || [ ! -d "$pkg" ]; then pkg=$(git apply --numstat $out/patch.diff | awk '{print $3}' | xargs -n1 dirname | sort -u | head -1); fi
 echo "$pkg" > $out/pkgdir
 cp $demo $pkg/$dn
